@@ -128,7 +128,7 @@ def inputs(fn, tier, rng):
 # ---------- functions over the entry array / the group list of an econf_file
 KF_FNS = ("has_group", "first_entry", "first_definition", "find_key", "getFromGroupList")
 NONE = b"_none_"
-KF_GROUPS = [b"A", b"B", b"", NONE, b"AB", b"a", b"[A]"]
+KF_GROUPS = [b"A", b"B", b"", NONE, b"AB", b"a", b"[A]", b"ab", b"bA", b"_nooD_"]   # ab / bA and _none_ / _nooD_: same djb2 hash
 KF_KEYS = [b"x", b"y", b"xy", b"", b"X"]
 
 
@@ -304,8 +304,8 @@ def merge_parse(ln):
 
 def merge_cases(fn, tier, rng):
     out = []
-    G = [NONE, b"A", b"B", b"AB"]
-    K = [b"x", b"y", b"xy"]
+    G = [NONE, b"A", b"B", b"AB", b"ab", b"bA", b"_nooD_"]
+    K = [b"x", b"y", b"xy", b"ab", b"bA"]
     V = [b"1", b"two words", None, b""]
 
     def add(t):
@@ -316,7 +316,7 @@ def merge_cases(fn, tier, rng):
                 for name in G:
                     add((list(gs), name))
         for _ in range(200 if tier == "quick" else 5000):
-            gs = rng.sample([NONE, b"A", b"B", b"AB", b"a", b"[A]", b"C", b"D", b"E"], rng.randint(0, 9))
+            gs = rng.sample([NONE, b"A", b"B", b"AB", b"a", b"[A]", b"C", b"D", b"E", b"ab", b"bA"], rng.randint(0, 9))
             add((gs, rng.choice(G + [b"a", b"zz"])))
         return out
     if fn == "cpy_file_entry":
